@@ -34,9 +34,15 @@ NoDupKeys(v) == CASE v.k = "vec" -> /\ \A i \in DOMAIN v.vs : NoDupKeys(v.vs[i])
                   [] OTHER -> TRUE
 SameV(nat, spec, host) == IF Has(host, "unordered") THEN (NoDupKeys(spec) => Setify(nat) = Setify(spec)) ELSE nat = spec
 \* a recognisable shape of difference: null where the specification has `opt` of an empty vector
+RECURSIVE HasEmptyVec(_)
+HasEmptyVec(v) == CASE v.k = "vec" -> v.vs = <<>> \/ \E i \in DOMAIN v.vs : HasEmptyVec(v.vs[i])
+                    [] v.k = "opt" -> HasEmptyVec(v.v)
+                    [] v.k = "rec" -> \E i \in DOMAIN v.fs : HasEmptyVec(v.fs[i].v)
+                    [] v.k = "var" -> HasEmptyVec(v.v)
+                    [] OTHER -> FALSE
 RECURSIVE NullForOptEmptyVec(_, _)
 NullForOptEmptyVec(nat, spec) ==
-  \/ (nat.k = "null" /\ spec.k = "opt" /\ spec.v.k = "vec" /\ spec.v.vs = <<>>)
+  \/ (nat.k = "null" /\ spec.k = "opt" /\ HasEmptyVec(spec.v))
   \/ (nat.k = "opt" /\ spec.k = "opt" /\ NullForOptEmptyVec(nat.v, spec.v))
   \/ (nat.k = "vec" /\ spec.k = "vec" /\ Len(nat.vs) = Len(spec.vs) /\ \E i \in DOMAIN nat.vs : NullForOptEmptyVec(nat.vs[i], spec.vs[i]))
   \/ (nat.k = "rec" /\ spec.k = "rec" /\ Len(nat.fs) = Len(spec.fs) /\ \E i \in DOMAIN nat.fs : NullForOptEmptyVec(nat.fs[i].v, spec.fs[i].v))
